@@ -503,6 +503,9 @@ class LegacyOpensslVersion(Version):
             build = int(build[0])
             if patch[0].isdecimal():
                 return False
+        # the parsed numbers, and not only the start of the text, are a known base
+        if f"{major}.{minor}.{build}" not in all_legacy_base:
+            return False
         return major, minor, build, patch
 
     @classmethod
